@@ -7,7 +7,9 @@ package main
 import (
 	"fmt"
 	"net"
+	"os"
 	"strings"
+	"time"
 
 	"verif/engine/refcql/frame"
 	"verif/engine/vnode"
@@ -59,15 +61,16 @@ func hostUUID(n int) string { return fmt.Sprintf("00000000-0000-0000-0000-000000
 const schemaVersion = "11111111-1111-1111-1111-111111111111"
 
 type sysnode struct {
-	cl        *vcluster
-	view      func() *cview // current view
-	self      string        // this node's ip
-	peersLog  *[]string     // appended: which view was served by a successful system.peers read
-	localLog  *[]string
-	failPeers func() bool // a system.peers read fails when this returns true
-	prepared  map[string]string
+	cl         *vcluster
+	view       func() *cview // current view
+	self       string        // this node's ip
+	peersLog   *[]string     // appended: which view was served by a successful system.peers read
+	localLog   *[]string
+	failPeers  func() bool          // a system.peers read fails when this returns true
+	peersDelay func() time.Duration // virtual delay of the reply to a system.peers read (nil: none)
+	prepared   map[string]string
 	registered []*vnode.ServerConn
-	next      vnode.Handler
+	next       vnode.Handler
 }
 
 func textCol(ks, tb, name string) frame.ColumnSpec {
@@ -129,6 +132,9 @@ func (sn *sysnode) rowsFor(stmt string, version int) (*frame.ResultRows, *frame.
 		}
 		if sn.peersLog != nil {
 			*sn.peersLog = append(*sn.peersLog, v.String())
+			if os.Getenv("SYSNODE_DEBUG") != "" {
+				fmt.Fprintf(os.Stderr, "SYSNODE peers read at %v on %s: %s\n", vs.Clock(), sn.self, v)
+			}
 		}
 		return r, nil
 	case strings.HasPrefix(norm, "select schema_version from system.local"):
@@ -149,7 +155,11 @@ func (sn *sysnode) handler() vnode.Handler {
 			if rows, e := sn.rowsFor(m.Statement, version); e != nil {
 				return vnode.Reply{Msg: e}
 			} else if rows != nil {
-				return vnode.Reply{Msg: rows}
+				rep := vnode.Reply{Msg: rows}
+				if sn.peersDelay != nil && strings.Contains(strings.ToLower(m.Statement), "system.peers") {
+					rep.Delay = sn.peersDelay()
+				}
+				return rep
 			}
 		case *frame.Prepare:
 			if rows, e := sn.rowsFor(m.Statement, version); rows != nil || e != nil {
@@ -172,7 +182,11 @@ func (sn *sysnode) handler() vnode.Handler {
 					rows.Meta.GlobalTableSpec = false
 					rows.Meta.Columns = nil
 				}
-				return vnode.Reply{Msg: rows}
+				rep := vnode.Reply{Msg: rows}
+				if sn.peersDelay != nil && strings.Contains(strings.ToLower(stmt), "system.peers") {
+					rep.Delay = sn.peersDelay()
+				}
+				return rep
 			}
 		}
 		if sn.next != nil {
